@@ -51,12 +51,24 @@ ASSUMPTIONS = [
     "single-threaded: to_exit status WAKE (cross-thread exit) is C14's",
 ]
 EVIDENCE_NOTES = [
-    "evl_backends_agree_partial is proved for the flat sub-class of S (no read-callback triggers: every action is issued "
-    "from an idle phase) - see Properties_C13.v for the exact statement; for the whole class S (triggers allowed under the "
-    "static confluence conditions in_S) agreement is checked by the monitor on every generated S script but not proved",
-    "poll back-end: an fd reporting POLLIN and POLLHUP together decrements n twice, so the walk can stop before a ready "
-    "lower slot; evl_poll_skipped_untouched shows the skipped slot keeps its registration and pending bytes and the "
-    "level-triggered kernel reports it again on the next pass: a delay, not a loss (observed, no patch)",
+    "evl_backends_agree (agreement of the three back-ends on every script of class S) is NOT proved.  Proved part "
+    "(evl_backends_agree_partial): a visit - read callback with its triggered actions, flagging, close callback and "
+    "removal - transforms the shared state identically in the three back-ends while the poll table has room; missing: the "
+    "confluence argument that the different visit orders of select (list order), poll (reverse slot order, early break) and "
+    "epoll (ready-list order) give the same outcomes for scripts in S.  The monitor checks agreement on every generated S "
+    "script (140 per quick run, 2400 per thorough run), and evl_backends_agree_refuted shows it fails outside S.",
+    "evl_read_called_when_pending is proved per batch for epoll only (evl_read_called_when_pending_partial); for select and "
+    "poll the missing step is that the walk reaches every registered context in the pass; for poll it is false in one pass "
+    "when an fd reports POLLIN and POLLHUP together (n decremented twice): evl_poll_skipped_slot_untouched and the example "
+    "poll_double_decrement_skips_one_pass show the skipped slot keeps registration and data and is reported again by the "
+    "next level-triggered poll(): a one-pass delay, not a loss, hence no patch; combined with an exit requested in that "
+    "same pass it falls in the racing-exit part of the known finding.  The monitor checks the per-pass rule on every run.",
+    "class S as proved/checked is narrower than DESIGN.md's sketch, because the real loops are order-sensitive in more ways: "
+    "no scripted exit (the loop exits at quiescence), self-shutdown only once everything the script can send has been read, "
+    "a peer terminated from a callback gets all its callback-issued writes from that same context, contexts <= hints_max_fd",
+    "defect found and repaired (fixes/C13-select-stale-fd.patch): the select back-end left the fd of a context that was added "
+    "and closed in the same pass in allset (EBADF -> the loop exited unasked); the model has the repaired behaviour "
+    "(evl_add_reject_remove_isolated, part 3)",
     "the node pool (use_mem_pool) grows on demand (muggle_memory_pool_alloc doubles), so hints_max_fd limits the number of "
     "contexts only in the poll back-end; select and epoll never refuse for capacity (observation)",
 ]
@@ -470,6 +482,8 @@ def _lifecycle(be, lines, sc, info):
             continue
         t = w[0]
         if t == "K":
+            if len(w) > 1 and w[1] == "runaway":
+                return "%s loop keeps calling the kernel and never exits (a reported descriptor is never served)" % be
             if len(w) > 1 and w[1] == "stuck":
                 return "%s loop blocked with nothing to report (lost wake-up or lost registration)" % be
             e = end_pass()
